@@ -155,6 +155,18 @@ func genScenarioC03(t *Tape, thorough bool) *Scenario {
 	h := GenHistory(hs, &o)
 	cs := t.S("cfg")
 	sc := &Scenario{Hist: h, Start: pickStart(cs, h, true), ServerID: genServerID(cs)}
+	if cs.Chance(1, 3) {
+		// replica crash at an arbitrary point of the stream (the Streamer is abandoned),
+		// then a new Streamer starts from the last label the handler recorded
+		npk := packetCount(h, sc.Start)
+		var p AttemptPlan
+		genPolicy(t.S("policy"), &p)
+		fillFault(t.S("fault"), h, stopCancel, cs.N(npk+1), &p)
+		c := cleanAttempt(cs, t.S("policy"))
+		c.FreshStreamer = true
+		sc.Attempts = []AttemptPlan{p, c}
+		return sc
+	}
 	sc.Attempts = []AttemptPlan{cleanAttempt(cs, t.S("policy"))}
 	return sc
 }
